@@ -613,6 +613,8 @@ fn run_history_sync(
     cfg.log = true;
     // conflicts reported by later calls must be as truthful as a fresh solver's (C03's oracle)
     cfg.render = true;
+    // ... and the clause database each call leaves behind as well-formed (watch lists, trail)
+    cfg.dump = true;
     let mut session = Session::new(&case.u, &cfg);
     let mut seen_c = HashSet::new();
     let mut seen_d = HashSet::new();
@@ -677,6 +679,15 @@ fn run_history_sync(
             }
             if i > 0 && res.log.iter().all(|e| !matches!(e, Ev::Cands(_) | Ev::Deps(_))) {
                 acc.count("later_calls_served_entirely_from_cache");
+            }
+        }
+        if let Some(d) = &res.dump {
+            if i > 0 {
+                acc.count("clause_databases_of_later_calls_checked");
+                let r = crate::e1::check_watches(d).and_then(|_| crate::e1::check_trail_levels(d));
+                if let Err((sig, what)) = r {
+                    acc.violation(viol("C13", &format!("state-on-reused-solver:{sig}"), format!("call {i} of history {seq:?}: {what}"), case, detail(), order));
+                }
             }
         }
         if let Some(w) = refetch(&mut seen_c, &mut seen_d, &res.log) {
